@@ -298,7 +298,17 @@ func subsets(n int) [][]int {
 func bigAlgPairs() [][2][]int {
 	a := rangeInts(0, 21)
 	return [][2][]int{{a, rangeInts(20, 46)}, {rangeInts(20, 46), a}, {a, rangeInts(21, 40)}, {a, rangeInts(10, 30)},
-		{a, rangeInts(5, 18)}, {rangeInts(5, 18), a}, {a, a}, {rangeInts(0, 40), rangeInts(38, 40)}, {rangeInts(0, 13), rangeInts(1, 14)}}
+		{a, rangeInts(5, 18)}, {rangeInts(5, 18), a}, {a, a}, {rangeInts(0, 40), rangeInts(38, 40)}, {rangeInts(0, 13), rangeInts(1, 14)},
+		// members that a many-to-one comparator cannot tell apart but that are different values (2k and 2k+1)
+		{everyOther(0, 40), everyOther(1, 41)}, {everyOther(1, 41), everyOther(0, 40)}, {everyOther(0, 40), everyOther(9, 29)}}
+}
+
+func everyOther(a, b int) []int {
+	var out []int
+	for i := a; i < b; i += 2 {
+		out = append(out, i)
+	}
+	return out
 }
 
 func jobAlg(j *jobCtx) {
